@@ -1,12 +1,16 @@
 """Static text for MANIFEST.json (see tools/gen_manifest.py)."""
 
-HOOK_COMMITS = ["1ba4448"]
+HOOK_COMMITS = ["1ba4448", "b817b93"]
 
 ENGINES = [
     {"name": "m_text", "path": "harness/vtext/src/bin/m_text.rs", "serves_properties": ["C13", "C14", "C19"],
      "kind_free_text": "runtime monitor (in-process, needs hook feature `verif`): drives glas::vfs::Vfs/LineMap and glas::convert against a reference model of an LSP client document (vh::lspmodel) and an LSP semantic-token decoder; exhaustive small-document spaces plus seeded long documents"},
-    {"name": "m_lsp", "path": "harness/vh/src/bin/m_lsp.rs", "serves_properties": ["C13", "C15"],
+    {"name": "m_lsp", "path": "harness/vh/src/bin/m_lsp.rs", "serves_properties": ["C13", "C15", "C16"],
      "kind_free_text": "runtime monitor (black box): drives the real release binary `glas --stdio` with generated LSP message sequences (vh::lspclient), observes liveness, exactly-once responses and the server's document text through glas/syntaxTree, judged against a nondeterministic model of acceptable document states"},
+    {"name": "m_incr", "path": "harness/vh/src/bin/m_incr.rs", "serves_properties": ["C11"],
+     "kind_free_text": "runtime monitor: edit histories over a model workspace with stable FileIds; after every step the long-lived AnalysisHost, a fresh host and a fresh host queried in shuffled order must give equal normal forms; sampled states are re-analysed in a separate process"},
+    {"name": "m_conc", "path": "harness/vh/src/bin/m_conc.rs", "serves_properties": ["C12"],
+     "kind_free_text": "runtime monitor: multi-threaded scenarios (main thread owning the host + reader threads on tagged snapshots, seeded sleeps/yields); offline checker compares every recorded answer with a sequential fresh analysis of the tagged version; cancellation/promptness accounting"},
     {"name": "m_sema", "path": "harness/vh/src/bin/m_sema.rs", "serves_properties": ["C05", "C06", "C07", "C08", "C18"],
      "kind_free_text": "runtime monitor: scope-aware generated workspaces (ground truth recorded by the generator's sidecar) loaded into ide::AnalysisHost; by-construction binding oracle (C05), refs<=>goto census law (C06), rename + fresh re-analysis isomorphism (C07), rename refusal reference table over three packages (C08), completion scope sets and accept-and-resolve (C18)"},
     {"name": "m_robust", "path": "harness/vh/src/bin/m_robust.rs", "serves_properties": ["C10", "C20"],
@@ -126,5 +130,26 @@ META = {
         "level_text": ("Exploration: ~5x10^6 encoder cases (all disjoint word-range sets over all small documents with multi-byte characters) and ~10^4 generated programs per quick run. Found and repaired: module qualifiers never tagged `namespace`."),
         "design_ref": "DESIGN.md §5 C19",
         "level_note": "Function-typed locals are accepted with either tag in scoped mode; typed programs assert the `function` tag.",
+    },
+    "C11": {
+        "technique": "history replay: incremental host vs. two fresh hosts (second one in shuffled query order) after every step; cross-process per-probe hash comparison",
+        "level_text": ("Exploration: ~5x10^7 probe answers per quick run over ~4x10^3 histories of 12 changes (file edits, add file, roots/graph replaced, dependency edge toggled). "
+                       "Found and repaired: type-variable naming of recursion groups depended on HashMap order and query history (non-determinism even between two fresh analyses)."),
+        "design_ref": "DESIGN.md §5 C11",
+        "level_note": "Set-valued answers are compared as sorted multisets; probes are sampled token boundaries (12 per file quick, 30 thorough); LRU eviction (140-module workspace) is a thorough-tier case.",
+    },
+    "C12": {
+        "technique": "tagged-snapshot history checker: answers recorded on reader threads are checked offline against a fresh analysis of the snapshot's version; cancellation and promptness accounting with seeded delays",
+        "level_text": ("Exploration of schedules: ~10^4 scenarios / 2.5x10^6 recorded queries per quick run, ~1.3x10^5 of them cancelled mid-sweep; every answer equals its own version's answer; no panic other than Cancelled; "
+                       "apply_change latency distribution reported. Held on everything observed."),
+        "design_ref": "DESIGN.md §5 C12",
+        "level_note": "Promptness is restated as: no query starting >700 ms after a change request may still answer, and apply_change <= 2.5 s (reader sweep cap). Schedules are sampled, not enumerated.",
+    },
+    "C16": {
+        "technique": "concurrent vs. sequential differential on the real binary with seeded message batching and seeded delays at yield points (hook); exactly-once accounting; convergence monitor; deadlock classifier with gdb witness",
+        "level_text": ("Exploration of schedules: ~5x10^2 races per quick run, ~10^4 raced requests (results / RequestCancelled / errors counted per version lag), yield-point hit counts in the evidence. "
+                       "Found and repaired: main-loop stall with more in-flight requests than cores, version mixtures through the shared document store, lost and re-ordered diagnostics publications."),
+        "design_ref": "DESIGN.md §5 C16",
+        "level_note": "Requires the hooked binary for injected delays (falls back to batching only). 'Converges' is judged after 300 ms of silence within a 10 s bound.",
     },
 }
